@@ -567,6 +567,9 @@ func (x *Exec) VerifyRoot() ([]*Obligation, error) {
 			env.reach = r.reach
 			env.frame = f // postconditions may mention locals with a single definition (resolved through DebugRefs)
 			env.allocPre = entry.Get(allocName, "Int")
+			// vacuity guard: the return must be reachable under everything assumed on the way to it
+			x.addObl(&Obligation{Kind: "cover", Label: "return", Pos: x.pos(r.pos), Reach: r.reach, Goal: "false", ExpectSat: true,
+				Name: fmt.Sprintf("%s#cover.return@ret%d", shortFn(fn), r.block)})
 			env.retBlock = fn.Blocks[r.block]
 			oos := false
 			env.outOfScope = &oos
